@@ -33,7 +33,7 @@ ASSUMPTIONS = [
     'optimizers needing absent libraries (polychord, dypolychord) and plugin components (ace, BHMie) cannot be discovered here and are not judged',
     'CLI differential: taurex.taurex.main() run in-process with -i -o -S on files the harness wrote (pickle cross-sections, pickle CIA); spectrum compared with the same components built through the library, rtol 1e-9',
 ]
-REQUIRED = {'part:sections': 0.2, 'part:cli': 0.08, 'part:selectors': 0.002, 'part:retrieval': 0.06, 'part:cli-retrieval': 0.03, 'negative': 0.08}
+REQUIRED = {'two-mixins': 0.012, 'zero-valued-key': 0.08, 'part:sections': 0.12, 'part:cli': 0.06, 'part:selectors': 0.002, 'part:retrieval': 0.06, 'part:cli-retrieval': 0.03, 'negative': 0.05}
 # coverage-guided extra (thorough tier): pure-Python taurex modules on this property's path, instrumented by atheris
 FUZZ = {'include': ['taurex.parameter', 'taurex.util.util'], 'runs': 6000, 'workers': 4}
 
@@ -84,7 +84,7 @@ def _case(draw):
         return c
     f = st.floats
     c['family'] = draw(st.sampled_from(['transmission', 'emission', 'directimage']))
-    c['temp'] = draw(st.sampled_from(['npoint', 'guillot', 'isothermal', 'guillot2010']))
+    c['temp'] = draw(st.sampled_from(['isothermal', 'npoint', 'guillot', 'isothermal', 'guillot2010']))
     c['tkeys'] = {'T': draw(_opt(f(300, 2500))), 'T_irr': draw(_opt(f(800, 2500))), 'kappa_irr': draw(_opt(f(1e-3, 0.1))),
                   'kappa_v1': draw(_opt(f(1e-3, 0.1))), 'kappa_v2': draw(_opt(f(1e-3, 0.1))), 'alpha': draw(_opt(f(0.1, 0.9))),
                   'T_int': draw(_opt(f(50, 500))), 'T_surface': draw(_opt(f(800, 2500))), 'T_top': draw(_opt(f(300, 1500))),
@@ -105,6 +105,8 @@ def _case(draw):
                            'mix_ratio_top': draw(_opt(f(-9, -5))), 'mix_ratio_P': draw(_opt(f(1.0, 4.0))),
                            'mix_ratio_smoothing': draw(_opt(S.ints(5, 40)))})
     c['ratio'] = draw(_opt(f(0.05, 0.4)))
+    # keys written with the value zero: a value like any other, it must reach the constructor (not the default)
+    c['zero_keys'] = draw(st.lists(st.sampled_from(['T_int', 'alpha', 'mix_ratio', 'smoothing_window', 'albedo', 'impact_param']), max_size=2, unique=True))
     c['fill'] = draw(st.sampled_from([['H2', 'He'], ['H2', 'He', 'NO'], ['N2', 'NO'], ['H2', 'He'], ['H2', 'He', 'N2', 'CO']]))
     c['mkeys'] = {'new_path_method': draw(_opt(st.booleans())), 'ngauss': draw(_opt(S.ints(1, 6)))}
     c['contribs'] = draw(st.lists(st.sampled_from(['CIA', 'Rayleigh', 'SimpleClouds', 'ThickClouds', 'FlatMie', 'LeeMie']), max_size=3, unique=True))
@@ -115,7 +117,7 @@ def _case(draw):
     c['boolform'] = draw(S.ints(0, 3))
     c['negative'] = draw(st.sampled_from([None, None, None, 'unknown-key', 'unknown-selector', 'unknown-contribution']))
     c['neg_where'] = draw(st.sampled_from(['Temperature', 'Pressure', 'Chemistry', 'Model', 'Gas', 'Contribution', 'Planet', 'Star']))
-    c['composite'] = draw(st.sampled_from([None, None, None, 'mixin', 'custom']))
+    c['composite'] = draw(st.sampled_from(['mixin2', None, 'mixin2r', None, 'mixin', 'custom', None]))
     c['tables'] = draw(st.lists(S.table(6, mag='mixed'), min_size=3, max_size=3))
     c['wn0'] = draw(f(300.0, 4000.0))
     c['dwn'] = draw(f(5.0, 300.0))
@@ -311,6 +313,48 @@ class Recorder:
             k.__init__ = orig
 
 
+_ORDER_MIXINS = []
+
+
+def load_order_mixins():
+    """two temperature mixins of the harness (the documentation's doubler and add50), registered once through the
+    public plug-in entry of the class factory"""
+    if _ORDER_MIXINS:
+        return
+    import types
+    from taurex.mixin import TemperatureMixin
+    from taurex.parameter.classfactory import ClassFactory
+
+    class VerifDoubler(TemperatureMixin):
+        def __init_mixin__(self):
+            pass
+
+        @property
+        def profile(self):
+            return super().profile * 2.0
+
+        @classmethod
+        def input_keywords(cls):
+            return ['verifdoubler']
+
+    class VerifAdd50(TemperatureMixin):
+        def __init_mixin__(self):
+            pass
+
+        @property
+        def profile(self):
+            return super().profile + 50.0
+
+        @classmethod
+        def input_keywords(cls):
+            return ['verifadd50']
+    mod = types.ModuleType('verif_order_mixins')
+    mod.VerifDoubler, mod.VerifAdd50 = VerifDoubler, VerifAdd50
+    VerifDoubler.__module__ = VerifAdd50.__module__ = 'verif_order_mixins'
+    ClassFactory().load_plugin(mod)
+    _ORDER_MIXINS.append(mod)
+
+
 def build_par(c, tmp, W):
     """text of the input file and the expectation {class name: {key: value}} of keys GIVEN"""
     forms = c['forms']
@@ -353,6 +397,8 @@ def build_par(c, tmp, W):
             if g[k] is None:
                 continue
             v = float(g[k]) if k == 'mix_ratio_smoothing' else 10.0 ** g[k]
+            if k == 'mix_ratio' and 'mix_ratio' in c.get('zero_keys', []):
+                v = 0.0
             lines.append('    %s = %s' % (k, num(v)))
             e[k] = v
         expect.setdefault(gas_classes[g['type']], []).append(e)
@@ -364,6 +410,10 @@ def build_par(c, tmp, W):
     sel_text = tsel
     if c['composite'] == 'mixin' and tsel == 'isothermal':
         sel_text = 'tempscalar+isothermal'
+    if c['composite'] in ('mixin2', 'mixin2r') and tsel == 'isothermal':
+        # two mixins that do not commute (documented example: doubler, add50), in either order
+        load_order_mixins()
+        sel_text = 'verifdoubler+verifadd50+isothermal' if c['composite'] == 'mixin2' else 'verifadd50+verifdoubler+isothermal'
     lines += ['[Temperature]', 'profile_type = %s' % sel_text]
     e = {}
     keys = {'Isothermal': ['T'], 'Guillot2010': ['T_irr', 'kappa_irr', 'kappa_v1', 'kappa_v2', 'alpha', 'T_int'],
@@ -381,10 +431,13 @@ def build_par(c, tmp, W):
             e[k] = [float(x) for x in tk[k]]
             e['pressure_points'] = pp
         else:
-            lines.append('%s = %s' % (k, num(tk[k])))
-            e[k] = float(tk[k])
+            val_ = 0.0 if k in c.get('zero_keys', []) else tk[k]
+            lines.append('%s = %s' % (k, num(val_)))
+            e[k] = float(val_)
     if sel_text.startswith('tempscalar'):
         lines.append('scale_factor = 1.0')
+    elif sel_text.startswith('verif'):
+        pass
     else:
         expect[tclass] = [e]
     lines.append('')
@@ -400,6 +453,8 @@ def build_par(c, tmp, W):
     e = {}
     for k, v in c['plkeys'].items():
         if v is not None:
+            if k in c.get('zero_keys', []):
+                v = 0.0
             lines.append('%s = %s' % (k, num(v)))
             e[k] = float(v)
     expect['Planet'] = [e]
@@ -558,6 +613,8 @@ def check_sections(out, c, tmp, run_cli):
             negative = None
         else:
             lines = neg_lines
+    if c.get('zero_keys'):
+        out.cls('zero-valued-key')
     if c['composite'] == 'custom' and not negative:
         out.cls('custom-class')
         py = os.path.join(tmp, 'mytemp.py')
@@ -644,6 +701,20 @@ def check_sections(out, c, tmp, run_cli):
         wantT = c['tkeys']['T'] if c['tkeys']['T'] is not None else 1500
         if not isinstance(tp, Isothermal) or not isinstance(tp, TempScaler) or not values_equal(tp.isoTemperature, wantT):
             out.fail('mixin-selector', 'tempscalar+isothermal built %s with T=%r' % ([k.__name__ for k in type(tp).__mro__[:4]], getattr(tp, 'isoTemperature', None)))
+    if any(l.startswith('profile_type = verif') for l in lines):
+        out.cls('two-mixins')
+        out.applies('mixin-order')
+        T0 = float(c['tkeys']['T']) if c['tkeys']['T'] is not None else 1500.0
+        first_doubler = any(l.startswith('profile_type = verifdoubler') for l in lines)
+        want = 2.0 * (T0 + 50.0) if first_doubler else 2.0 * T0 + 50.0      # the first mixin listed is applied last
+        try:
+            tp.initialize_profile(None, 3, np.array([1e5, 1e3, 1e1]))
+            gotT = np.asarray(tp.profile, dtype=float)
+            if gotT.shape != (3,) or not close(gotT, want * np.ones(3), rtol=1e-12):
+                out.fail('mixin-order@%s' % ('doubler-first' if first_doubler else 'add50-first'),
+                         'T=%r gives %r, documented evaluation order gives %r' % (T0, gotT[:1], want))
+        except Exception as e_:                                # noqa
+            out.fail('mixin-order@raises:%s' % type(e_).__name__, str(e_)[:200])
     if run_cli:
         check_cli(out, c, tmp, par, model)
     return bool(nondefault >= 3 and sections >= 3)
